@@ -1138,7 +1138,7 @@ func (h *ByzHost) handleFund(s net.Conn) error {
 		return err
 	}
 	h.req(req)
-	if err := req.Validate(); err != nil {
+	if err := req.Validate(); err != nil && !h.PlayAlong {
 		h.rpcErr(s, err.Error())
 		return nil
 	}
@@ -1205,7 +1205,7 @@ func (h *ByzHost) handleReplenish(s net.Conn, pools bool) error {
 		return err
 	}
 	h.req(req)
-	if err := req.Validate(); err != nil {
+	if err := req.Validate(); err != nil && !h.PlayAlong {
 		h.rpcErr(s, err.Error())
 		return nil
 	}
@@ -1679,7 +1679,7 @@ var Kinds = map[string][][]string{
 	},
 	"write":  {cat([]string{"root-flip", "root-zero", "root-other", "root-unpadded", "root-first-leaf-zeroed"}, genericKinds)},
 	"verify": {cat(proofKinds, []string{"leaf-flip", "leaf-zero", "leaf-other-index", "lie-other-index", "lie-other-sector"}, genericKinds)},
-	"roots": {cat(proofKinds, []string{"roots-flip", "roots-trunc", "roots-extend", "roots-empty", "roots-swap", "roots-substitute", "lie-other-range"}, SigKinds, genericKinds)},
+	"roots":  {cat(proofKinds, []string{"roots-flip", "roots-trunc", "roots-extend", "roots-empty", "roots-swap", "roots-substitute", "lie-other-range"}, SigKinds, genericKinds)},
 	"append": {
 		cat([]string{"subtree-flip", "subtree-trunc", "subtree-extend", "subtree-empty", "root-flip", "root-unchanged", "root-reorder", "root-substitute", "root-dup", "root-drop-one", "accepted-trunc", "accepted-extend", "accepted-decline", "accepted-false-lie", "accepted-true-lie"}, genericKinds),
 		cat(SigKinds, genericKinds),
